@@ -182,4 +182,57 @@ Proof.
   intros Hc Hin. destruct (run_inv cap ops Hc [] []) as [_ Hk]; [split; [constructor|destruct cap; reflexivity]|].
   apply lookup_memb. rewrite Hk. apply memb_in. exact Hin.
 Qed.
+
+(* C08, functional half: the table refines a plain map.  [sstep] is the specification (the value of the last Set_ of a
+   key since the last Clear); whatever the table answers is the specification's answer, for every operation list, with
+   evictions and recency moves in between.  With [lru_recency]: a key among the `cap` most recently touched ones hits
+   and returns the latest value stored for it. *)
+Definition smap := key -> option V.
+Definition sstep (m : smap) (o : op) : smap :=
+  match o with
+  | Get _ => m
+  | Set_ k v => fun x => if eqb x k then Some v else m x
+  | Clear => fun _ => None
+  end.
+Definition Sound (t : table) (m : smap) : Prop := forall k v, lookup t k = Some v -> m k = Some v.
+
+Lemma lookup_del_other t k x : eqb x k = false -> lookup (del t k) x = lookup t x.
+Proof.
+  intros Hx. induction t as [|[k' v'] t IH]; [reflexivity|]. cbn [del lookup].
+  destruct (eqb k k') eqn:Ek.
+  - apply keqb_eq in Ek. subst k'. rewrite Hx. exact IH.
+  - cbn [lookup]. destruct (eqb x k'); [reflexivity|exact IH].
+Qed.
+Lemma lookup_removelast t x v : lookup (removelast t) x = Some v -> lookup t x = Some v.
+Proof.
+  induction t as [|[k' v'] t IH]; [discriminate|]. destruct t as [|p t]; [discriminate|].
+  change (removelast ((k', v') :: p :: t)) with ((k', v') :: removelast (p :: t)).
+  cbn [lookup]. destruct (eqb x k'); [trivial|]. exact IH.
+Qed.
+
+Lemma step_sound cap t m o : Sound t m -> Sound (step cap t o) (sstep m o).
+Proof.
+  intros H. destruct o as [k|k v|]; cbn [step sstep].
+  - unfold mc_get. destruct (lookup t k) as [v|] eqn:E; cbn [fst]; [|exact H].
+    intros x w. cbn [lookup]. destruct (eqb x k) eqn:Ex.
+    + apply keqb_eq in Ex. subst x. intros W. injection W as <-. apply H. exact E.
+    + rewrite lookup_del_other by exact Ex. apply H.
+  - intros x w. unfold mc_set. destruct (lookup t k) as [v0|] eqn:E; cbn [lookup]; destruct (eqb x k) eqn:Ex; trivial.
+    + rewrite lookup_del_other by exact Ex. apply H.
+    + destruct (Nat.ltb (length t) cap); [apply H|]. intros W. apply H. apply lookup_removelast. exact W.
+  - intros x w. discriminate.
+Qed.
+Theorem run_sound cap ops : forall t m, Sound t m -> Sound (fold_left (step cap) ops t) (fold_left sstep ops m).
+Proof. induction ops as [|o ops IH]; cbn [fold_left]; intros t m H; [exact H|]. apply IH. apply step_sound. exact H. Qed.
+
+Corollary lru_reads_last_write cap ops k v :
+  lookup (fold_left (step cap) ops []) k = Some v -> fold_left sstep ops (fun _ => None) k = Some v.
+Proof. apply (run_sound cap ops [] (fun _ => None)). intros x w. discriminate. Qed.
+Corollary lru_recent_reads_latest cap ops k : cap >= 1 ->
+  In k (firstn cap (fold_left (rstep cap) ops [])) ->
+  exists v, lookup (fold_left (step cap) ops []) k = Some v /\ fold_left sstep ops (fun _ => None) k = Some v.
+Proof.
+  intros Hc Hin. destruct (lru_recency cap ops k Hc Hin) as [v Hv]. exists v. split; [exact Hv|].
+  apply (lru_reads_last_write cap). exact Hv.
+Qed.
 End Lru.
